@@ -314,6 +314,112 @@ def run(ctx):
                     ctx.violation(Finding('R-HDRFMT', RP, 'writearlpackedbit', st, "'%s' produces %s characters but field %s is %d wide" % (const_str(st.value.left), w, k, fw)))
     ctx.floor('formatted header fields', nf, 8)
     # ---- R-RECLEN: index record and data records have the same length 50 + nx*ny
+    # ---- R-ABSMAX: the largest *absolute* difference (abs before max) on both axes
+    from .. import consteval
+    ctx.rule('R-ABSMAX', 'pack2d: the range estimate is the maximum of absolute differences along rows and along columns (abs applied before max)')
+    pk = mod.func('pack2d')
+    wpk = 'src/PseudoNetCDF/%s pack2d' % RP
+    rmax = [st for st in iter_stmts(pk.body) if isinstance(st, ast.Assign) and norm(st.targets[0]) == 'RMAX' and isinstance(st.value, ast.Call)]
+    comps = []
+    for st in rmax:
+        for a in st.value.args:
+            if isinstance(a, ast.Name):
+                comps += [s2 for s2 in iter_stmts(pk.body) if isinstance(s2, ast.Assign) and norm(s2.targets[0]) == a.id]
+
+    def absmax_shape(e):
+        # max(abs(X)) in either spelling -> 'ok'; abs(max(X)) -> 'swapped'; else None
+        def is_abs(c):
+            return isinstance(c, ast.Call) and dotted(c.func) in ('np.abs', 'np.absolute', 'abs', 'np.fabs')
+
+        def is_max(c):
+            return isinstance(c, ast.Call) and ((isinstance(c.func, ast.Attribute) and c.func.attr == 'max' and not dotted(c.func) in ('np.max',)) or dotted(c.func) in ('np.max', 'np.amax', 'max', 'np.nanmax'))
+
+        def inner(c):
+            if isinstance(c.func, ast.Attribute) and dotted(c.func) not in ('np.max', 'np.amax', 'np.nanmax', 'np.abs', 'np.absolute', 'np.fabs'):
+                return c.func.value
+            return c.args[0] if c.args else None
+        if is_max(e) and inner(e) is not None and is_abs(inner(e)):
+            return 'ok'
+        if is_abs(e) and inner(e) is not None and is_max(inner(e)):
+            return 'swapped'
+        return None
+    if len(comps) < 2:
+        ctx.undec('R-ABSMAX', 'RMAX', wpk, 'components of RMAX not found')
+    for st in comps:
+        sh = absmax_shape(st.value)
+        if sh == 'ok':
+            ctx.ok('R-ABSMAX', norm(st.targets[0]), wpk, 'max(abs(diff))')
+        elif sh == 'swapped':
+            ctx.violation(Finding('R-ABSMAX', RP, 'pack2d', st, '%s is abs(max(diff)): the largest signed difference, so a field whose steepest step is negative gets too small an exponent '
+                                  'and the packed differences overflow a byte' % norm(st.targets[0])))
+        else:
+            ctx.undec('R-ABSMAX', norm(st.targets[0]), wpk, 'not in the max(abs(.)) form: %s' % norm(st.value)[:60])
+    # ---- R-GRIDSLOT: extended-grid offsets: first GRID byte <-> x / NX, second <-> y / NY
+    ctx.rule('R-GRIDSLOT', 'inqarlpackedbit: the x offset comes from GRID[0] and is added to NX, the y offset from GRID[1] and is added to NY')
+    iq = mod.func('inqarlpackedbit')
+    wiq = 'src/PseudoNetCDF/%s inqarlpackedbit' % RP
+    ng = 0
+    for st in iter_stmts(iq.body):
+        if isinstance(st, ast.Assign) and isinstance(st.targets[0], ast.Name) and re.match(r'^grid[xy]_off$', st.targets[0].id):
+            ax = st.targets[0].id[4]
+            idx = [n.slice.value for n in ast.walk(st.value) if isinstance(n, ast.Subscript) and isinstance(n.slice, ast.Constant) and isinstance(n.slice.value, int)
+                   and "['GRID']" in norm(n.value)]
+            ng += 1
+            if idx == [{'x': 0, 'y': 1}[ax]]:
+                ctx.ok('R-GRIDSLOT', st.targets[0].id, wiq, "GRID[%d]" % idx[0])
+            else:
+                ctx.violation(Finding('R-GRIDSLOT', RP, 'inqarlpackedbit', st, 'the %s offset is decoded from GRID%s instead of GRID[%d]: grids with more than 999 cells in one direction '
+                                      'get the wrong shape' % (ax, idx, {'x': 0, 'y': 1}[ax])))
+        if isinstance(st, ast.Assign) and norm(st.targets[0]) in ("out['NX']", "out['NY']"):
+            ax = norm(st.targets[0])[6].lower()
+            names = [n.id for n in ast.walk(st.value) if isinstance(n, ast.Name) and re.match(r'^grid[xy]_off$', n.id)]
+            hf = [const_str(n.slice) for n in ast.walk(st.value) if isinstance(n, ast.Subscript) and const_str(n.slice) in ('NX', 'NY')]
+            ng += 1
+            if names == ['grid%s_off' % ax] and hf == ['N' + ax.upper()]:
+                ctx.ok('R-GRIDSLOT', norm(st.targets[0]), wiq, norm(st.value))
+            else:
+                ctx.violation(Finding('R-GRIDSLOT', RP, 'inqarlpackedbit', st, '%s is built from %s + %s' % (norm(st.targets[0]), hf, names)))
+    ctx.floor('grid offset statements', ng, 4)
+    # ---- R-VGTXT: six-character level texts reproduce the level (finite case analysis over magnitudes incl. exact powers of ten)
+    ctx.rule('R-VGTXT', 'getvgtxts: the 6-character text of a level parses back to the level for every magnitude below 1e5')
+    gf = mod.func('getvgtxts')
+    wgf = 'src/PseudoNetCDF/%s getvgtxts' % RP
+    loop = [st for st in gf.body if isinstance(st, ast.For)]
+    if not loop or not isinstance(loop[0].target, ast.Name):
+        ctx.undec('R-VGTXT', 'loop', wgf, 'loop over the levels not found')
+    else:
+        lv = loop[0].target.id
+        res_name = [st.targets[0].id for st in gf.body if isinstance(st, ast.Assign) and isinstance(st.value, ast.List) and not st.value.elts]
+        bad = unk = None
+        samples = [0, 0.5, 0.995, 1, 1.5, 9.5, 10, 10.5, 20, 99.9, 100, 101.325, 1000, 1013.25, 9999.5, 10000, 20000.5, 0.001, 0.01, 0.1, 99999]
+        for v in samples:
+            env = consteval.run_block(loop[0].body, {lv: v, (res_name or ['vgtxts'])[0]: []}, want_env=True)
+            if env is consteval.UNK:
+                unk = v
+                continue
+            out_ = env.get((res_name or ['vgtxts'])[0])
+            if env.get('$raised'):
+                bad = (v, 'raises')
+                break
+            if out_ is consteval.UNK or not out_:
+                unk = v
+                continue
+            txt = out_[0]
+            try:
+                back = float(txt)
+            except Exception:
+                back = None
+            nd_ = len(str(int(v))) if v >= 1 else 0
+            tol = 0.5 * 10.0 ** (-min(5, 5 - nd_)) * (1 + 1e-6)   # half a unit of the last place six characters can hold
+            if len(txt) != 6 or back is None or abs(back - v) > tol:
+                bad = (v, 'is written as %r' % txt)
+                break
+        if bad:
+            ctx.violation(Finding('R-VGTXT', RP, 'getvgtxts', loop[0].body[0], 'level %r %s: the index record then carries another vertical coordinate than the file' % bad))
+        elif unk is not None:
+            ctx.undec('R-VGTXT', 'format', wgf, 'loop body outside the evaluated fragment for level %r' % unk)
+        else:
+            ctx.ok('R-VGTXT', 'format', wgf, '%d sample levels (0, fractions, exact powers of ten, up to 99999) give 6 characters that parse back' % len(samples))
     ctx.rule('R-RECLEN', 'index record (time header + variable table + filler) and every data record are 50 + nx*ny bytes')
     env = DT.DtypeEnv(mod.assigns)
     vh = DT.nbytes(env.eval(mod.assigns['vhdtype'])).constval()
